@@ -18,7 +18,7 @@ RULE = (
     "(none / built-in / composition of 1-3) x choice sequence (each step picks "
     "among filtered available operations or among all raw ready operations, and "
     "an eligible machine, optionally omitting the machine id for single-machine "
-    "operations, optionally after read-only queries in that state), optionally preceded by an abandoned partial episode and a "
+    "operations, optionally after read-only queries in that state, optionally after a request for a not-ready operation that has to be refused), optionally preceded by an abandoned partial episode and a "
     "reset() on the same dispatcher; optionally a copy.deepcopy of the dispatcher "
     "is taken mid-run and played to the end separately. Oracle: independent feasibility checker on "
     "dispatcher.schedule.schedule after every dispatch + is_complete exactly "
@@ -51,7 +51,7 @@ def strategy(tier):
         benchmarks=("ft06", "la01") if big else ("ft06",),
         big_ok=2,
     )
-    step = st.tuples(st.integers(0, 7), st.integers(0, 5), st.integers(0, 7)).map(list)
+    step = st.tuples(st.integers(0, 7), st.integers(0, 5), st.integers(0, 15)).map(list)
     seq = st.fixed_dictionaries(
         {
             "mode": st.just("sequence"),
@@ -122,6 +122,34 @@ def _sequence(case, ctx):
             for o in drv.dispatcher.raw_ready_operations():
                 for mm in o.machines:
                     drv.dispatcher.start_time(o, mm)
+        if r & 8:
+            # a request the dispatcher has to refuse (an operation that is not
+            # the next one of its job), sent the way ready ones are sent;
+            # refused requests are not part of the history of accepted ones
+            unready = [
+                (jj, pp)
+                for jj, row in enumerate(inst["durations"])
+                for pp in range(len(row))
+                if pp != drv.model.next[jj]
+            ]
+            if unready:
+                jj, pp = unready[(a + 3 * b) % len(unready)]
+                o = drv.op(jj, pp)
+                try:
+                    if len(o.machines) == 1 and r & 2:
+                        drv.dispatcher.dispatch(o)
+                    else:
+                        drv.dispatcher.dispatch(o, o.machines[b % len(o.machines)])
+                    accepted = True
+                except Exception:  # pylint: disable=broad-except
+                    accepted = False
+                ctx.check(
+                    not accepted,
+                    "accepted-unready",
+                    f"dispatch of ({jj},{pp}) was accepted although job {jj}'s next operation is {drv.model.next[jj]}"
+                    f" (default machine: {bool(len(o.machines) == 1 and r & 2)})",
+                )
+                ctx.count("refused_requests")
         pool = "available" if (filters and not r & 1) else "ready"
         if pool == "available" and not drv.dispatcher.available_operations():
             pool = "ready"  # an empty filter result is C07's business
